@@ -272,6 +272,19 @@ def included_terms(handed_id, reg):
     return [i for i in ids if i != 'joint'], has_joint
 
 
+def positive_support_parameters(js, reg):
+    """ADVI with --distribution LogNormal/Gamma/Weibull keeps a positive parameter constrained and moves it with a
+    variational factor whose support is (0, inf): such a base Parameter ranges over the positive reals only."""
+    out = set()
+    var = reg.get('variational')
+    for o in (var or {}).get('distributions', []) if isinstance(var, dict) else []:
+        o = resolve(o, reg)
+        if isinstance(o, dict) and str(o.get('distribution', '')).split('.')[-1] in ('LogNormal', 'Gamma', 'Weibull'):
+            if isinstance(o.get('x'), str):
+                out.add(o['x'])
+    return out
+
+
 def make_plan(js):
     reg = registry(js)
     handed, moved, kind = handed_density(js)
@@ -280,7 +293,8 @@ def make_plan(js):
     base_parameters(joint_js, reg, base)
     exp, priors, unknown = expected_jacobians(joint_js, reg)
     inc, has_joint = included_terms(handed, reg) if handed else (None, False)
-    return {'handed': handed, 'moved': moved, 'runnable': kind, 'base': base, 'expected': exp, 'priors': priors,
+    return {'handed': handed, 'moved': moved, 'runnable': kind, 'base': base,
+            'positive': sorted(positive_support_parameters(js, reg) & set(base)), 'expected': exp, 'priors': priors,
             'unknown_priors': unknown, 'included': inc, 'has_joint': has_joint}
 
 
@@ -564,13 +578,14 @@ def vnames(pid, shape):
     return ['exp:' + nm for nm in cm.names_shaped(pid, shape)]
 
 
-def set_values(dic, plan_base, vals):
+def set_values(dic, plan_base, vals, positive=()):
     for pid in plan_base:
         p = dic[pid]
         cur_t = p.tensor.detach().clone().to(torch.float64)
         names = vnames(pid, tuple(cur_t.shape))
         flat = cur_t.reshape(-1).tolist()
-        new = [math.log(vals[nm]) if (nm in vals and vals[nm] > 0) else flat[k] for k, nm in enumerate(names)]
+        back = (lambda v: v) if pid in positive else math.log  # positive parameter: the variable is the value itself
+        new = [back(vals[nm]) if (nm in vals and vals[nm] > 0) else flat[k] for k, nm in enumerate(names)]
         p.tensor = torch.tensor(new, dtype=torch.float64).reshape(cur_t.shape)
 
 
@@ -579,7 +594,7 @@ def replay_density(js, plan, vals):
     Returns (mismatch, detail, per-id log-dets)."""
     register_all()
     dic = load_objects(js)
-    set_values(dic, plan['base'], vals)
+    set_values(dic, plan['base'], vals, plan.get('positive', ()))
     handed = float(dic[plan['handed']]())
     joint = float(dic['joint']())
     lds = {}
@@ -655,6 +670,8 @@ def move_to_variational_mean(js, dic):
         loc_id = loc.get('id') if isinstance(loc, dict) else loc
         if isinstance(x, str) and x in dic and isinstance(loc_id, str) and loc_id in dic:
             want = dic[loc_id].tensor.detach().clone()
+            if str(o['distribution']).endswith('LogNormal'):
+                want = want.exp()  # factor placed on the positive parameter itself: exp(loc) is its median
             if want.shape == dic[x].tensor.shape:
                 dic[x].tensor = want
                 moved += 1
@@ -813,7 +830,8 @@ def solver_stage(sub, groups, label, js, plan, dic0, tr):
         base[pid] = (shape, names)
         for i, (nm, x) in enumerate(zip(names, v.reshape(-1).tolist())):
             # generic witness: the CLI's initial point moved off its symmetric values
-            W[nm] = float(f'{math.exp(x + 0.05 + 0.0625 * ((3 * i + k) % 5)):.6g}')
+            off = 0.05 + 0.0625 * ((3 * i + k) % 5)
+            W[nm] = float(f'{(x * math.exp(off) if pid in plan["positive"] else math.exp(x + off)):.6g}')
     terms = list(plan['expected']) + [T for T in dict.fromkeys(plan['included']) if T not in plan['expected']]
     state = {'cache': {}, 'lemma_failures': {}, 'pc_cache': {}, 'tf_classes': set()}
     tr.stubs.add('substitution_model.p_t replaced by an uninterpreted matrix function P_ij(t; model parameters) '
@@ -855,7 +873,10 @@ def solver_stage(sub, groups, label, js, plan, dic0, tr):
         from torchtree.evolution.substitution_model.abstract import SubstitutionModel
 
         for pid, (shape, names) in base.items():
-            dic[pid].tensor = torch.log(cm.var_tensor(V, names)).reshape(shape)  # u = log(E), E > 0
+            if pid in plan['positive']:
+                dic[pid].tensor = cm.var_tensor(V, names).reshape(shape)  # positive parameter moved on (0, inf)
+            else:
+                dic[pid].tensor = torch.log(cm.var_tensor(V, names)).reshape(shape)  # u = log(E), E > 0
         for o in list(dic.values()):
             if isinstance(o, SubstitutionModel):
                 install_p_stub(o)
@@ -966,7 +987,7 @@ def solver_stage(sub, groups, label, js, plan, dic0, tr):
         if raised is not None:
             tr.violation(f'cli:{sub}:density-raises:{raised[0]}',
                          f'torchtree-cli {label}: evaluating {plan["handed"]}() on the real objects at unconstrained values '
-                         f'{ {k: round(math.log(v), 4) for k, v in list(wit.items())[:8]} } raises {raised[0]}: {raised[1][:300]}',
+                         f'(exp of) { {k: round(v, 4) for k, v in list(wit.items())[:8]} } raises {raised[0]}: {raised[1][:300]}',
                          dict(rp, values=wit, kind='raises'))
         else:
             tr.inconc(f'{label}: symbolic run raised {type(e).__name__}: {str(e)[:300]} (not reproduced on plain tensors)')
@@ -1059,7 +1080,7 @@ def replay_raises(js, plan, vals):
     register_all()
     try:
         dic = load_objects(js)
-        set_values(dic, plan['base'], vals)
+        set_values(dic, plan['base'], vals, plan.get('positive', ()))
         dic[plan['handed']]()
         dic['joint']()
     except Exception as e:
@@ -1070,7 +1091,7 @@ def replay_raises(js, plan, vals):
 def replay_listed(js, plan, vals):
     register_all()
     dic = load_objects(js)
-    set_values(dic, plan['base'], vals)
+    set_values(dic, plan['base'], vals, plan.get('positive', ()))
     handed = float(dic[plan['handed']]())
     want = float(dic['joint']()) + sum(float(torch.as_tensor(dic[T]()).sum()) for T in plan['included'])
     return abs(handed - want) > 1e-8 * max(1.0, abs(want)), f'handed() = {handed:.12g} but joint() + listed terms = {want:.12g}'
@@ -1079,7 +1100,7 @@ def replay_listed(js, plan, vals):
 def replay_transform(js, plan, T, vals):
     register_all()
     dic = load_objects(js)
-    set_values(dic, plan['base'], vals)
+    set_values(dic, plan['base'], vals, plan.get('positive', ()))
     obj = dic.get(T)
     if obj is None:
         return False, 'no such object'
@@ -1221,6 +1242,10 @@ def tasks_for(tier, tmp):
     if tier == 'quick':
         cfgs = quick_configs() + init_configs(('hmc', 'advi'))[:4]
         exe = [('hmc', groups_for('HKY', 4, False, 'strict', 'ratio', 'constant')), ('advi', groups_for('JC69', 1, False, None, 'ratio', None))]
+    elif os.environ.get('C19_ONLY') == 'options':
+        # development aid: the quick configurations + everything outside the core grid (not a tier of its own)
+        cfgs = quick_configs() + init_configs(SUBS) + option_configs(SUBS)
+        exe = []
     else:
         cfgs = full_grid() + init_configs(SUBS) + option_configs(SUBS)
         exe = [(s, groups_for('HKY', 4, True, 'strict', 'ratio', 'skygrid')) for s in SUBS]
